@@ -443,7 +443,7 @@ func runC01(c *eng.Ctx) {
 			if fn.Name() != "apply" || fn.Signature.Recv() == nil {
 				continue
 			}
-			for _, s := range p.Sites(fn, func(p *eng.Prog, in ssa.Instruction) bool {
+			for _, s := range p.SitesDirect(fn, func(p *eng.Prog, in ssa.Instruction) bool {
 				cl, ok := in.(*ssa.Call)
 				return ok && cl.Common().IsInvoke() && (strings.HasPrefix(cl.Common().Method.Name(), "Add") || cl.Common().Method.Name() == "Sequence")
 			}) {
